@@ -118,7 +118,12 @@ class C08(Prop):
             for v in vs:
                 G[u].append((v, rng.choice([0, 1, 1, 2, 3, 5, MAXSIZE])))
         s, t = rng.sample(range(n), 2)
-        return dict(entry="ford_fulkerson", family="random", G=[[k, a] for k, a in G.items()], s=s, t=t)
+        fam = "random"
+        if rng.random() < 0.4:      # vertices are arbitrary integers, not 0..n-1: negative labels, gaps, 1-based numbering
+            lab = rng.sample(range(-6, 40), n) if rng.random() < 0.5 else ([-1, -2] + list(range(1, n - 1)) if n >= 2 else list(range(n)))
+            if len(lab) == n:
+                G = {lab[u]: [(lab[v], c) for v, c in a] for u, a in G.items()}; s, t = lab[s], lab[t]; fam = "relabelled"
+        return dict(entry="ford_fulkerson", family=fam, G=[[k, a] for k, a in G.items()], s=s, t=t)
 
     def shrink(self, case):
         G = case["G"]
